@@ -641,6 +641,11 @@ func (e *Engine) globalFacts(vc *VC, g *ssa.Global, ref string) {
 	if gi == nil || !gi.constant {
 		return
 	}
+	// a never-written global whose address does not escape cannot be the target of a pointer the function
+	// receives
+	for _, kr := range vc.knownRefs {
+		vc.decls = append(vc.decls, fmt.Sprintf("(assert (not (= %s %s)))", kr, ref))
+	}
 	et := g.Type().Underlying().(*types.Pointer).Elem()
 	l := layoutOf(et)
 	comps := l.Comps()
